@@ -560,10 +560,15 @@ pub(crate) fn add_float_format<W, R, T>(
             if specs.ty.alternative{
                 return xerr(ManagedXError::new("no alt type available for float formatting", rt)?);
             }
+            let precision = specs.precision.unwrap_or(6);
+            // std's formatter panics on a precision above u16::MAX
+            if precision > u16::MAX as usize{
+                return xerr(ManagedXError::new("precision too large", rt)?);
+            }
             let body = match get_body(
                 mag,
                 specs.ty.type_,
-                specs.precision.unwrap_or(6),
+                precision,
                 specs.grouping,
             ) {
                 Ok(body)=>body,
